@@ -457,7 +457,9 @@ def statements(d, depth=0):
         b, e = draw(st.sampled_from(pairs))
         b = draw(mixed_case(b))
         e = draw(mixed_case(e))
-        name = draw(identifiers().filter(not_reserved))
+        name = draw(st.one_of(identifiers().filter(not_reserved), identifiers().filter(
+            not_reserved), st.sampled_from(["BAND_GROUP", "DATA_OBJECT", "GroupA",
+                                            "ObjectStore", "SUBGROUP_1", "IMAGE_OBJECT"])))
         body = draw(st.lists(statements(d, depth + 1), min_size=1, max_size=4))
         out = [T(b), T("=", "eq"), T(name)]
         if draw(st.integers(0, 9)) < 2:
